@@ -463,6 +463,47 @@ def run_history(ctx, p):
             return
     if kept and not state_ok(ctx, c, x, model, dict(sig, op='mutate_results'), what):
         return
+    # a loop over the object that changes it on the way (a list re-reads its length at every step: appended items are visited,
+    # a shrinking list simply ends the loop)
+    if 1 <= len(model) <= 6 and (len(ops) + start) % 3 == 0:
+        for how in ('append', 'pop', 'del0', 'clear', 'insert0'):
+            try:
+                xc = from_list(c, [np.array(m, copy=True) for m in model])
+            except Exception:
+                break
+            mc = [np.array(v, copy=True) for v in xc.data]       # (what the object holds: a unit quaternion is normalised again on construction)
+            o_, v_ = single(c, pool[(start + len(ops)) % len(pool)])
+
+            def mutate(obj, item):
+                if how == 'append':
+                    obj.append(item)
+                elif how == 'pop':
+                    obj.pop()
+                elif how == 'del0':
+                    del obj[0]
+                elif how == 'clear':
+                    obj.clear()
+                else:
+                    obj.insert(0, item)
+
+            def walk(obj, item):
+                seen_ = 0
+                try:
+                    for _e in obj:
+                        seen_ += 1
+                        if seen_ >= 12:
+                            break
+                        if seen_ <= 3:
+                            mutate(obj, item)
+                    return seen_, None
+                except Exception as ex:
+                    return seen_, ex
+            want_, werr_ = walk(mc, v_)
+            got_, gerr_ = walk(xc, o_)
+            ok = got_ == want_ and type(gerr_) is type(werr_) and len(xc.data) == len(mc) and all(eq_arr(c, v, m) for v, m in zip(xc.data, mc))
+            ctx.judge('readout', ok, dict(sig, kind='iteration_while_mutating_differs', op='iter+' + how),
+                      lambda: '%s: a loop that does %s during its first three steps visits %d items%s and leaves %d; a list visits %d%s and leaves %d' % (
+                          what(), how, got_, ' then raises %r' % gerr_ if gerr_ else '', len(xc.data), want_, ' then raises %r' % werr_ if werr_ else '', len(mc)))
     ctx.cell('kept_results', c, min(len(kept), 8), min(len(m_[1]) for m_ in kept) if kept else 0)
     ctx.cell('history', c, start, len(ops))
     if len(ops) >= 2 and any(o in MUTATORS for o in ops):
@@ -730,8 +771,8 @@ def run(ctx):
         # an empty object: refused like the all-object lists, with and without value checking (check=False skips the test of
         # the VALUES, it does not make an object a value)
         if c in ('SO2', 'SE2', 'SO3', 'SE3', 'Twist2', 'Twist3', 'UnitQuaternion'):
-            for pat in ('AF', 'AM', 'AE', 'AAF', 'AAM', 'AFA'):
-                for nocheck in (False, True):
+            for pat in ('AF', 'AM', 'AE', 'AAF', 'AAM', 'AFA', 'M', 'OM', 'MO', 'OMO', 'E', 'OE', 'EO', 'OEO', 'OF', 'FO', 'OOM'):
+                for nocheck in ((False, True) if pat[0] == 'A' else (True,)):
                     i += 1
                     if ctx.mine(i):
                         drive(RUNNERS, ctx, 'ctorlist', dict(cls=c, other=OTHER[c], pat=pat, pool=pools[c], opool=pools[OTHER[c]], nocheck=nocheck))
